@@ -33,6 +33,10 @@ fn main() {
     if args.is_empty() {
         usage();
     }
+    if args[0] == "setup" {
+        println!("vharness built; nothing else to set up");
+        return;
+    }
     if args[0] == "probe" {
         probe(&args[1..]);
         return;
@@ -79,6 +83,8 @@ fn main() {
     let code = std::thread::Builder::new()
         .stack_size(256 << 20)
         .spawn(move || match id.as_str() {
+            "C04" => driver::run(&props::c04::C04, &opts),
+            "C06" => driver::run(&props::c06::C06, &opts),
             "C14" => driver::run(&props::c14::C14, &opts),
             _ => {
                 eprintln!("unknown property {id}");
